@@ -313,3 +313,56 @@ func (x *Ex) packageVars() []string {
 	}
 	return out
 }
+
+// hazardSites: expressions that can panic at run time — index and slice expressions on
+// slices/arrays/strings, single-value type assertions, explicit panic calls.
+func (x *Ex) hazardSites() []string {
+	var out []string
+	x.forEachFunc(func(rel string, fd *ast.FuncDecl, info *types.Info) {
+		fname := funcName(rel, fd)
+		commaOk := map[ast.Expr]bool{}
+		ast.Inspect(fd.Body, func(n ast.Node) bool {
+			switch v := n.(type) {
+			case *ast.AssignStmt:
+				if len(v.Lhs) == 2 && len(v.Rhs) == 1 {
+					commaOk[v.Rhs[0]] = true
+				}
+			case *ast.ValueSpec:
+				if len(v.Names) == 2 && len(v.Values) == 1 {
+					commaOk[v.Values[0]] = true
+				}
+			case *ast.TypeSwitchStmt:
+				ast.Inspect(v.Assign, func(m ast.Node) bool {
+					if ta, ok := m.(*ast.TypeAssertExpr); ok {
+						commaOk[ta] = true
+					}
+					return true
+				})
+			}
+			return true
+		})
+		ast.Inspect(fd.Body, func(n ast.Node) bool {
+			switch v := n.(type) {
+			case *ast.IndexExpr:
+				if tv, ok := info.Types[v.X]; ok {
+					switch tv.Type.Underlying().(type) {
+					case *types.Slice, *types.Array, *types.Basic, *types.Pointer:
+						out = append(out, fname+" | index | "+collapse(x.src(v)))
+					}
+				}
+			case *ast.SliceExpr:
+				out = append(out, fname+" | slice | "+collapse(x.src(v)))
+			case *ast.TypeAssertExpr:
+				if v.Type != nil && !commaOk[v] {
+					out = append(out, fname+" | type-assert | "+collapse(x.src(v)))
+				}
+			case *ast.CallExpr:
+				if id, ok := v.Fun.(*ast.Ident); ok && id.Name == "panic" {
+					out = append(out, fname+" | panic | "+collapse(x.src(v)))
+				}
+			}
+			return true
+		})
+	})
+	return out
+}
